@@ -413,6 +413,9 @@ def judge_entries(res, tree, entries, form, case, stage, excluded_patterns=(), m
             res.nontrivial.add(common.digest([stage, c.ckind, ast.unparse(c.node)]))
         for a in accs:
             res.count("position:" + (a.tags[0] if a.tags else "plain"))
+            xs = xattr_signature(a)
+            if xs is not None and not a.tags:
+                res.count(f"{stage}:demanded:{xs}")
             if a.name in have[a.kind]:
                 continue
             mp = match_position(a.path)
@@ -420,6 +423,8 @@ def judge_entries(res, tree, entries, form, case, stage, excluded_patterns=(), m
                 sig = "missed-access:" + a.tags[0]
             elif mp is not None:
                 sig = "missed-access:" + mp + ("" if c.ckind in ("function", "async-function") else ":in:" + c.ckind)
+            elif xs is not None:
+                sig = "missed-access:" + xs + ("" if c.ckind in ("function", "async-function") else ":in:" + c.ckind)
             elif c.ckind in ("function", "async-function"):
                 sig = "missed-access:other:" + "/".join(a.path[-2:])
             else:
@@ -431,6 +436,16 @@ def judge_entries(res, tree, entries, form, case, stage, excluded_patterns=(), m
                                                "path": list(a.path), "tags": list(a.tags)},
                                    "reported": {k: sorted(v)[:40] for k, v in have.items()}})
     return judged
+
+
+def xattr_signature(a):
+    """`getattr-family-literal-name:<builtin>` for an (untagged) access that IS a direct getattr-family call
+    with a literal name (the sentence of the property about getattr / hasattr / setattr / delattr) — purely
+    syntactic: computed from the node of the access — else None."""
+    n = a.node
+    if spec.direct_xattr(n) and spec.is_str_const(n.args[1]):
+        return "getattr-family-literal-name:" + n.func.id
+    return None
 
 
 def match_position(path):
